@@ -9,6 +9,11 @@ import (
 	"strings"
 	"verifharness/ref"
 
+	"github.com/consensys/gnark-crypto/ecc"
+	"github.com/consensys/gnark/frontend"
+	"github.com/consensys/gnark/frontend/cs/r1cs"
+	"github.com/consensys/gnark/frontend/cs/scs"
+	"github.com/wormhole-foundation/example-near-light-client/verifier"
 	"verifharness/data"
 	"verifharness/drv"
 	"verifharness/engine"
@@ -22,6 +27,48 @@ type acceptCase struct {
 	K        int    `json:"k"`
 	Mode     string `json:"mode"`
 	Wrapper  string `json:"wrapper"` // vc | fixed
+	Sys      string `json:"sys"`     // "" = the proxy on gnark's test engine; r1cs | scs = compiled with gnark's real builder and solved
+}
+
+// runRealAccept compiles the repository's circuit with one of gnark's real builders - mode "commit": the commitment-based range
+// checker the builders offer (what cmd compile produces); mode "plain": the bit-decomposition override - and solves it with the honest
+// witness.  The builders differ from the test engine in what a frontend.Variable is (linear expressions, terms), in constant folding and
+// in the order of deferred callbacks; a valid proof is accepted there too.
+func runRealAccept(sys, mode string, tmpl, asg *data.Loaded, fixed bool) (stage string, err error) {
+	defer func() {
+		if r := recover(); r != nil {
+			stage, err = "panic", fmt.Errorf("%v", r)
+		}
+	}()
+	setBitDecompEnv(mode == "plain")
+	defer setBitDecompEnv(false)
+	mk := func(l *data.Loaded) frontend.Circuit {
+		if fixed {
+			c := &verifier.CircuitFixed{ProofWithPis: l.PWPI, VerifierData: l.VD, CommonCircuitData: l.Common}
+			pub := hc.PackPublic(pubInputs(l)[:16])
+			for i := range pub {
+				c.PublicInputs[i] = pub[i]
+			}
+			return c
+		}
+		return &verifier.VerifierCircuit{PublicInputs: l.PWPI.PublicInputs, Proof: l.PWPI.Proof, VerifierData: l.VD, CommonCircuitData: l.Common}
+	}
+	var nb frontend.NewBuilder = r1cs.NewBuilder
+	if sys == "scs" {
+		nb = scs.NewBuilder
+	}
+	ccs, err := frontend.Compile(ecc.BN254.ScalarField(), nb, mk(tmpl))
+	if err != nil {
+		return "compile", err
+	}
+	w, err := frontend.NewWitness(mk(asg), ecc.BN254.ScalarField())
+	if err != nil {
+		return "witness", err
+	}
+	if err := ccs.IsSolved(w, commitmentOverrides(ccs)...); err != nil {
+		return "solve", err
+	}
+	return "", nil
 }
 
 type wrapReq struct {
@@ -36,8 +83,8 @@ type wrapReq struct {
 	Ks       []string     `json:"ks"`
 	Stride   int          `json:"stride"`
 	Classes  []string     `json:"classes"`
-	Mode     string       `json:"mode"`  // c03: range-check mechanism of the builder (native | commit | plain), default native
-	Paths    []string     `json:"paths"` // noncanon: only these leaves (targets computed from the canonical-set trace)
+	Mode     string       `json:"mode"`     // c03: range-check mechanism of the builder (native | commit | plain), default native
+	Paths    []string     `json:"paths"`    // noncanon: only these leaves (targets computed from the canonical-set trace)
 	PowBits  *int         `json:"pow_bits"` // noncanon: the grinding difficulty of the circuit description (both stored copies) set to this value
 }
 
@@ -63,6 +110,16 @@ func wrapperDrv(raw json.RawMessage, resp *drv.Response) error {
 			cfg := &engine.Config{Mode: modeOf(c.Mode)}
 			var err error
 			want := "accept"
+			if c.Sys != "" {
+				stage, err := runRealAccept(c.Sys, c.Mode, data.Load(data.ByName(c.Instance), c.K), l, c.Wrapper == "fixed")
+				resp.Count(fmt.Sprintf("accept-real/%s/%d/%s/%s/%s", c.Instance, l.K, c.Mode, c.Wrapper, c.Sys), false)
+				if err != nil {
+					resp.Violate(fmt.Sprintf("c02/real-builder/%s mode=%s wrapper=%s sys=%s", stage, c.Mode, c.Wrapper, c.Sys),
+						fmt.Sprintf("valid proof %s restricted to %d query rounds, compiled with gnark's %s builder (range-check mode %s, wrapper %s): %s: %s", c.Instance, l.K, c.Sys, c.Mode, c.Wrapper, stage, firstLine(err)), c)
+				}
+				resp.Sample(map[string]any{"instance": c.Instance, "k": l.K, "mode": c.Mode, "wrapper": c.Wrapper, "sys": c.Sys, "stage_failed": stage})
+				continue
+			}
 			if c.Wrapper == "fixed" {
 				pis := pubInputs(l)
 				if len(pis) != 16 {
